@@ -300,7 +300,10 @@ struct Res { int b, nb, N, n; LD A; std::vector<char> bpat; };
 static Res gen_reservoir(Rng &r, int b, int nb, int tail, bool positive_first_column) {
     Res R; R.b = b; R.nb = nb; R.N = b * nb; R.n = R.N + tail; int n = R.n; R.A = LD::Zero(n, n); R.bpat.assign((size_t)nb * nb, 0);
     for (int i = 0; i < nb; ++i) for (int j = 0; j < nb; ++j) if (i == j || r.coin(nb <= 6 ? 0.4 : 0.2)) R.bpat[(size_t)i * nb + j] = 1;
-    for (int i = 0; i < R.N; ++i) for (int j = 0; j < R.N; ++j) { if (i == j || !R.bpat[(size_t)(i / b) * nb + j / b]) continue; bool diagblk = i / b == j / b; if (!diagblk && r.coin(0.3)) continue; double v = r.uni(-1, 1) * (diagblk ? 0.6 : 0.4); if (positive_first_column && j % b == 0) v = std::fabs(v); R.A(i, j) = v; }
+    // half of the systems have structurally sparse diagonal blocks (in-block couplings not stored), as a scalar assembly of a
+    // multi-phase system produces when a phase is absent from a cell; the blocks stay strictly diagonally dominant
+    const double pdiag = r.coin(0.5) ? 0.5 : 0.0;
+    for (int i = 0; i < R.N; ++i) for (int j = 0; j < R.N; ++j) { if (i == j || !R.bpat[(size_t)(i / b) * nb + j / b]) continue; bool diagblk = i / b == j / b; if (r.coin(diagblk ? pdiag : 0.3)) continue; double v = r.uni(-1, 1) * (diagblk ? 0.6 : 0.4); if (positive_first_column && j % b == 0) v = std::fabs(v); R.A(i, j) = v; }
     for (int i = R.N; i < n; ++i) for (int j = 0; j < n; ++j) if (i != j && r.coin(0.3)) { R.A(i, j) = r.uni(-0.5, 0.5); if (r.coin(0.7)) R.A(j, i) = r.uni(-0.5, 0.5); }
     for (int i = 0; i < n; ++i) { long double s = 0; for (int j = 0; j < n; ++j) if (j != i) s += fabsl(R.A(i, j)); R.A(i, i) = (double)((s + 0.3) * 1.3); }
     return R;
@@ -360,7 +363,10 @@ template <int Tag, template <class, class> class CPRT, class SP> void cpr_compos
             // first row of the inverse diagonal block: LU without pivoting of a b x b dominant block, bound 8 b^2 eps kappa(D) |Di(0,:)|
             long double tolF = 8.0 * R.b * R.b * EPS * kD * (nmax(Fr) + 1e-300L);
             c.check_le((double)nmax(Fl0 - Fr0), (double)tolF, name + ":Fpp:first-row-of-inverse-block", "Fpp is not the first row of the inverse of the diagonal block");
-            bool ok = true; double worst = 0; for (int i = 0; i < R.nb; ++i) for (int j = 0; j < R.nb; ++j) { long double sa = 0; for (int k = 0; k < R.b; ++k) sa += fabsl(Fr(i, i * R.b + k) * R.A(i * R.b + k, j * R.b)); long double tol = (8.0 * R.b * R.b * kD + R.b + 2) * EPS * sa + 1e-300L; long double e = fabsl(Ap(i, j) - Ar(i, j)); if (!(e <= tol)) { ok = false; worst = std::max(worst, (double)e); } }
+            bool ok = true; double worst = 0; for (int i = 0; i < R.nb; ++i) for (int j = 0; j < R.nb; ++j) { long double sa = 0; for (int k = 0; k < R.b; ++k) sa += fabsl(Fr(i, i * R.b + k) * R.A(i * R.b + k, j * R.b)); long double an = 0; for (int k = 0; k < R.b; ++k) an += fabsl(R.A(i * R.b + k, j * R.b));
+                // App = Fpp A: the (normwise) rounding error tolF of the computed first row of the inverse block propagates as tolF * sum_k |a_kj|
+                // (it does so even where the exact weight is 0, e.g. for structurally sparse diagonal blocks), plus the rounding of the b-term sum
+                long double tol = (8.0 * R.b * R.b * kD + R.b + 2) * EPS * sa + tolF * an + 1e-300L; long double e = fabsl(Ap(i, j) - Ar(i, j)); if (!(e <= tol)) { ok = false; worst = std::max(worst, (double)e); } }
             c.check(ok, name + ":pressure-matrix:value", "pressure matrix is not the first-row-of-inverse-diagonal-block weighting of A", J().n("worst_abs_err", worst).n("b", R.b));
         } else {
             // DRS: the pressure matrix is the weighting of A by the transfer operator actually used; weights are 0 or the given weight, the pressure equation keeps its weight
